@@ -15,6 +15,12 @@
    (correspondence) and with the verified forecaster (the property); every mounting path is mounted and
    the extended history re-read from the tree; complete trees go through the verified derivation checker
    (drv_ir, E2);
+3b. per partial tree the real visitor walks (the first SPINE_SAMPLE predict calls of an exploration and every call
+   whose forecast disagrees): its right spine -> drv_proto `spines`: the verified checker `pdB` (C19_pd_checker) says
+   whether it is a message-level partial derivation of the history (PositionsExact.sound, observed on the
+   implementation), the model of the visitor (`walkPosWith`) what must be offered along it - compared with
+   `PathFinder.forecast(tree)`; an extra option that only trees that are NO partial derivations contribute is the
+   finding F63 (the parser hands over a tree with a sibling behind an unfinished node);
 4. slicing: real `slice_parties` vs the model `sliceG` (rule by rule, ids included; on the whole grammar and on
    its message level, which is what `C19_slice_commutes` speaks about - its hypothesis `sliceCert` is evaluated
    by the driver), forecasting on the real sliced grammar, and "the visible part of a prefix / interaction is
@@ -63,11 +69,14 @@ TRUSTED = [
     "(shape of the rep_max computation and of the re-entry guard, C19_source_configuration) and by this run's "
     "correspondence (generator-bounded): real slice_parties == sliceG rule by rule, real predict == codeNexts == "
     "nexts per prefix",
-    "the prefix parse is specified (`positions`), not modelled: C19_code_forecast_of_positions reduces "
-    "`codeNexts = continuations` to PositionsExact (the spines handed to the visitor are sound and complete for "
-    "the message-level partial derivations of the history); that the Earley parser's prefix mode meets it is "
-    "checked only through the compared forecasts (E3 models the parser; its prefix-mode soundness theorem is "
-    "weaker than PositionsExact.sound and completeness is not proved)",
+    "the prefix parse is specified (`positions`), not modelled: C19_code_forecast_full proves `codeNexts = "
+    "continuations` for every history for that specification (PositionsExact: the spines handed to the visitor "
+    "are sound and complete for the message-level partial derivations of the history); that the REAL prefix parse "
+    "meets PositionsExact is not proved (E3's prefix-mode soundness theorem is weaker, completeness is not proved) "
+    "and is false for some type-ambiguous histories (finding F63): per run the verified checker pdB judges the "
+    "right spine of every walked partial tree (sampled), and the forecasts are compared",
+    "harness/impl/proto_real.py spine_of (real partial tree -> position of the model; cross-checked per tree: the "
+    "model of the visitor along the spine must offer what PathFinder.forecast offers on the tree)",
     "harness/impl/grammar_io.py grammar_to_json (real front end -> IR JSON), harness/impl/proto_real.py",
     "rank candidate computed by an unverified helper in Driver/Proto.lean, accepted only through the verified "
     "check rankOk",
@@ -91,6 +100,12 @@ SIG_AMBIG = "C19/party-ambiguous-type-in-history"
 SIG_NULLTAIL = "C19/complete-missed-parser-rejects-history(C05)"
 SIG_CAP = "C19/open-repetition-capped"
 SIG_PARSER_PREFIX = "C19/no-forecast-parser-rejects-prefix(C05)"
+# an option that cannot follow, offered along a partial tree of the prefix parse that is NOT a message-level partial
+# derivation of the history (a node left of the right spine is unfinished): PositionsExact.sound fails for the parser
+SIG_SPURIOUS_TREE = "C19/option-from-tree-that-is-no-partial-derivation"
+# how many predict calls per exploration have every walked tree checked (spine -> verified checker pdB + model of
+# the visitor along it), beyond the calls whose forecast disagrees (all of those are checked)
+SPINE_SAMPLE = 60
 
 VERIF = Path(__file__).resolve().parents[2]
 PROPOSED = VERIF / "proposed_findings" / "C19.json"
@@ -137,6 +152,7 @@ MAX_ADMISSIONS = 400_000
 # within the bound = exponentially ambiguous but finite.
 SIZE_FACTOR = 6
 _STEPS = {"trees": 0, "adds": 0, "max_size": 0, "size_bound": 10 ** 9, "armed": False, "copies": 0}
+_WALKED: list = []      # (partial tree, ForecastingResult) of every PathFinder.forecast(tree) of the predict call at hand
 
 
 def _install_step_counters():
@@ -172,6 +188,15 @@ def _install_step_counters():
         _STEPS["copies"] += 1
         return orig_deepcopy(self, *a, **kw)
     DerivationTree.__deepcopy__ = counted_deepcopy
+    from fandango.io.navigation.packetforecaster import PathFinder
+    orig_forecast = PathFinder.forecast
+
+    def forecast(self, tree=None):
+        r = orig_forecast(self, tree)
+        if _STEPS["armed"] and tree is not None:
+            _WALKED.append((tree, r))
+        return r
+    PathFinder.forecast = forecast
     PacketIterativeParser.consume = consume
     colmod.Column.add = add
     PacketIterativeParser._c19_counted = True
@@ -217,6 +242,11 @@ def explore(grammar, cases: list[dict], max_trees: int = 2, check_complete_trees
     seen: dict[tuple, set] = {(): set()}
     out = {"cases": 0, "predicts": 0, "mismatch": [], "mounts": 0, "unbuilt": 0, "complete_trees": 0,
            "errors": [], "timeouts": 0}
+    from harness.impl.grammar_io import grammar_to_json
+    gj_all, _ = grammar_to_json(grammar)
+    ir_rules = {r[0]: r[1] for r in gj_all["rules"]}
+    spine_jobs: list = []        # (history, [spine], [options of the real visitor along that tree], record | None)
+    sampled = 0
     contents: dict[str, Any] = {}
     to_validate: list = []
     # message types that occur with two or more different (sender, recipient) pairs: predict() re-parses the
@@ -254,6 +284,7 @@ def explore(grammar, cases: list[dict], max_trees: int = 2, check_complete_trees
                 signal.setitimer(signal.ITIMER_REAL, PREDICT_TIMEOUT_S)
                 _STEPS.update(trees=0, adds=0, max_size=0, armed=True,
                               size_bound=SIZE_FACTOR * (len(h) + 2) * max(grammar_nodes, 10))
+                _WALKED.clear()
                 try:
                     opts, real_complete, res = pr.real_predict(fc, t)
                 finally:
@@ -299,9 +330,25 @@ def explore(grammar, cases: list[dict], max_trees: int = 2, check_complete_trees
                 rec["parser_rejects"] = not pr.parser_accepts(grammar, t)
             if h and not real and model_next:
                 rec["parser_no_partial_tree"] = not pr.parser_yields_partial_tree(grammar, t)
-            if real != model_next or real != model_code or real_complete != case["complete"] \
-                    or real_complete != case["code_complete"]:
+            differs = real != model_next or real != model_code or real_complete != case["complete"] \
+                or real_complete != case["code_complete"]
+            if differs:
                 out["mismatch"].append(rec)
+            # the partial trees the visitor walked for this call: their right spines go to the verified checker
+            # (is it a partial derivation of the history?) and to the model of the visitor (same options?)
+            if h and _WALKED and (differs or sampled < SPINE_SAMPLE):
+                sampled += 0 if differs else 1
+                spines, per_tree = [], []
+                for wt, wr in _WALKED:
+                    try:
+                        spines.append(pr.spine_of(wt, ir_rules))
+                        per_tree.append([jm(m) for m in pr.options_of(wr)])
+                    except pr.SpineError as e:
+                        out["spine_errors"] = out.get("spine_errors", 0) + 1
+                        out.setdefault("spine_error_samples", []).append(str(e))
+                if spines:
+                    spine_jobs.append(([jm(m) for m in h], spines, per_tree, rec if differs else None))
+            _WALKED.clear()
             if real_complete and check_complete_trees:
                 for ct in res.complete_trees:
                     to_validate.append((list(h), ct))
@@ -374,6 +421,42 @@ def explore(grammar, cases: list[dict], max_trees: int = 2, check_complete_trees
                                             "fresh_forecaster": [jm(m) for m in sorted(o2, key=str)], "complete_fresh": c2})
                     one = PacketForecaster(grammar)
                     break
+    # the walked partial trees: verified checker + model of the visitor, per tree
+    if spine_jobs:
+        answers = driver_ask("drv_proto", [{"op": "spines", "grammar": gj_all, "start": "<start>", "history": hj,
+                                            "spines": sp} for hj, sp, _pt, _rec in spine_jobs])
+        for (hj, sp, per_tree, rec_), ans in zip(spine_jobs, answers):
+            if len(ans.get("spines", [])) != len(sp):
+                continue                       # hypotheses of the model fail for this grammar (never: checked above)
+            pd_union, nonpd_union, n_bad = set(), set(), 0
+            for pj, real_t, a in zip(sp, per_tree, ans["spines"]):
+                out["walked_trees_checked"] = out.get("walked_trees_checked", 0) + 1
+                model_t = [jm(tm(m)) for m in mset(a["walk"])]
+                real_s = mset(real_t)
+                model_s = mset(a["walk"])
+                if real_s != model_s and not (all(m in model_s for m in real_s) and
+                                              sorted({(m[0], m[2]) for m in real_s}) == sorted({(m[0], m[2]) for m in model_s})):
+                    # the model of the visitor and PathFinder.forecast disagree on this tree (not the merge of F39)
+                    out["mismatch"].append({"h": hj, "kind": "visitor-tree", "spine": pj, "real_tree_options": real_t,
+                                            "model_tree_options": model_t, "pd": a["pd"]})
+                if a["pd"]:
+                    pd_union.update(model_s)
+                    if not a["in_positions"]:
+                        out["walked_pd_trees_outside_model_positions"] = out.get("walked_pd_trees_outside_model_positions", 0) + 1
+                else:
+                    n_bad += 1
+                    nonpd_union.update(model_s)
+                    out["walked_trees_not_partial_derivations"] = out.get("walked_trees_not_partial_derivations", 0) + 1
+                    out.setdefault("non_pd_samples", [])
+                    if len(out["non_pd_samples"]) < 3:
+                        out["non_pd_samples"].append({"h": hj, "spine": pj})
+            if rec_ is not None:
+                nx = mset(ans["nexts"])
+                rec_["walked_trees"] = len(sp)
+                rec_["walked_trees_not_pd"] = n_bad
+                rec_["pd_trees_give_nexts"] = sorted(pd_union, key=str) == sorted(nx, key=str)
+                rec_["extras_only_from_non_pd_trees"] = all(
+                    (tm(m) in nonpd_union) for m in rec_["real"] if tm(m) not in set(nx))
     # verified derivation checker on the complete trees
     if to_validate:
         try:
@@ -841,6 +924,10 @@ def classify(rec: dict, nullable_head: bool = False) -> tuple[Optional[str], Opt
                 f"one PacketForecaster asked {rec['sequence']} in this order answers the history {rec['h']} with "
                 f"{rec['same_forecaster']} (complete={rec['complete_same']}); a brand-new forecaster answers "
                 f"{rec['fresh_forecaster']} (complete={rec['complete_fresh']})", False)
+    if rec.get("kind") == "visitor-tree":
+        return ("C19/visitor-model-differs-on-a-tree",
+                f"PathFinder.forecast on a partial tree of the history {rec['h']} with right spine {rec['spine']} offers "
+                f"{rec['real_tree_options']}, the model of the visitor {rec['model_tree_options']}", True)
     if rec.get("kind") == "mount":
         return SIG_MOUNT, f"mounting {rec['mount']} after {rec['h']}: {rec.get('error') or rec.get('got')}", False
     if rec.get("kind") in ("complete-tree-invalid", "complete-tree-history"):
@@ -870,6 +957,15 @@ def classify(rec: dict, nullable_head: bool = False) -> tuple[Optional[str], Opt
             # NO partial tree for this valid prefix: a parser completeness defect (C05 domain), not a forecasting one
             sig, corr = SIG_PARSER_PREFIX, False
             what += " - the real IterativeParser, asked directly in ParsingMode.INCOMPLETE, yields no partial tree"
+        elif extra and rec.get("walked_trees_not_pd") and rec.get("pd_trees_give_nexts") \
+                and rec.get("extras_only_from_non_pd_trees"):
+            # the model of the visitor is right on every walked tree, the walked trees that ARE partial derivations of the
+            # history give exactly the continuations, every extra option comes from a tree that is none (verified
+            # checker pdB): the prefix parse handed over a tree in which a node left of the right spine is unfinished
+            sig, corr = SIG_SPURIOUS_TREE, False
+            what += (f" - {rec['walked_trees_not_pd']} of the {rec['walked_trees']} partial trees the prefix parse handed to the "
+                     f"visitor are not partial derivations of the history (a sibling follows an unfinished node); the others "
+                     f"give exactly the continuations")
         elif lost:
             sig = SIG_AMBIG
         elif extra:
@@ -1060,6 +1156,12 @@ def main(tier: str) -> int:
                        dict(base_replay, history=e["h"], traceback=e.get("tb")))
         nh = r.get("nullable_head_in_open_rep", False)
         run.count("timeouts", ex.get("timeouts", 0))
+        run.count("walked_partial_trees_checked(spine -> verified checker pdB + model of the visitor)",
+                  ex.get("walked_trees_checked", 0))
+        run.count("walked_partial_trees_that_are_no_partial_derivation(PositionsExact.sound fails for the parser)",
+                  ex.get("walked_trees_not_partial_derivations", 0))
+        run.count("walked_partial_derivations_the_model_positions_do_not_list", ex.get("walked_pd_trees_outside_model_positions", 0))
+        run.count("spine_extraction_failed", ex.get("spine_errors", 0))
         run.count("prefixes_skipped(tree budget of the exploration used up)", ex.get("cases_skipped_tree_budget", 0))
         run.count("prefix_parse_exponentially_ambiguous(skipped,not judged)", ex.get("too_ambiguous", 0))
         for rec in ex["mismatch"]:
